@@ -227,9 +227,9 @@ def raw_symbolic_tie(cases: list[dict], rep: Report) -> None:
 def attributable_to_k1(info: dict) -> bool:
     """re-run this one query with exactly the K1 rule instance switched off"""
     e = wire.build_raw(info["e"])
-    with common.k1_disabled():
+    with common.k1_disabled() as k1:
         s = impl_as_expression(e, info["x"], info["route"])
-    if s[0] != "ok":
+    if s[0] != "ok" or not k1.hits:
         return False
     stxt = wire.expr(s[1])
     if info["order"] == 1:
